@@ -136,7 +136,10 @@ func ToChannel[T any](size int) func(Observable[T]) Observable[<-chan Notificati
 			// Send the channel to the observer, because
 			// it's going to detach the upstream from the downstream.
 			// The next operator might be long-running.
-			go func() {
+			// A teardown of the source that panics is re-raised by Unsubscribe; when the subscription has been
+			// disposed before the goroutine below registers its upstream subscription, that happens on this
+			// goroutine: it must not take the process down.
+			go recoverUnhandledError(func() {
 				// This is a workaround to avoid a race condition between the
 				// destination.NextWithContext() and the destination.CompleteWithContext()
 				// on empty source.
@@ -164,7 +167,7 @@ func ToChannel[T any](size int) func(Observable[T]) Observable[<-chan Notificati
 						),
 					),
 				)
-			}()
+			})
 
 			// Send the channel to the observer, after the goroutine is started.
 			// Because the observer might call be long-running.
